@@ -782,3 +782,92 @@ func (a *A) globalWriters() map[string][]string {
 	}
 	return res
 }
+
+// mutatedFields lists the fields of struct type T that module code mutates after construction:
+// stores through a non-fresh object, in-place map/slice mutation, or sync.Map mutators called on
+// the field. Mutex fields are ignored.
+func (a *A) mutatedFields(T *types.Named) map[string][]string {
+	out := map[string]map[string]bool{}
+	st, ok := T.Underlying().(*types.Struct)
+	if !ok {
+		return nil
+	}
+	for i := 0; i < st.NumFields(); i++ {
+		f := st.Field(i)
+		if isNamedType(f.Type(), "sync", "Mutex") || isNamedType(f.Type(), "sync", "RWMutex") {
+			continue
+		}
+		for _, ac := range a.fieldAccesses(f) {
+			if isFreshObject(ac.Addr) {
+				continue
+			}
+			mut := false
+			switch in := ac.In.(type) {
+			case *ssa.Store, *ssa.MapUpdate:
+				mut = ac.Write
+			case *ssa.Call:
+				if cal := in.Call.StaticCallee(); cal != nil {
+					switch cal.Name() {
+					case "Store", "LoadOrStore", "Delete", "Swap", "CompareAndSwap", "CompareAndDelete", "LoadAndDelete", "Range", "Add", "Put":
+						mut = cal.Name() != "Range"
+					}
+					if _, ok := isBuiltinCall(in, "delete"); ok {
+						mut = true
+					}
+				}
+			}
+			if mut {
+				if out[f.Name()] == nil {
+					out[f.Name()] = map[string]bool{}
+				}
+				out[f.Name()][fname(ac.Fn)] = true
+			}
+		}
+	}
+	res := map[string][]string{}
+	for f, fs := range out {
+		for fn := range fs {
+			res[f] = append(res[f], fn)
+		}
+		sort.Strings(res[f])
+	}
+	return res
+}
+
+// ruleSingletonState: the mutable fields of the process-wide singletons are a subset of the reviewed table.
+func (a *A) ruleSingletonState() {
+	tables := map[string]map[string]string{
+		"functions.ExprBridge": {
+			"programCache":    "compiled programs keyed by expression text; an entry is reused only for the same env type",
+			"preprocessCache": "backtick/LIKE/IS NULL rewriting, a pure function of the expression text",
+			"exprEnv":         "function wrappers by name, rebuilt from the registry",
+		},
+		"functions.FunctionRegistry": {
+			"functions":  "the registry itself, mutated only by Register/Unregister",
+			"categories": "index of the registry by type",
+			"snapshot":   "copy-on-read cache of the registry, invalidated by Register/Unregister",
+		},
+	}
+	var names []string
+	for n := range tables {
+		names = append(names, n)
+	}
+	sort.Strings(names)
+	for _, n := range names {
+		parts := strings.SplitN(n, ".", 2)
+		T := a.Named(parts[0], parts[1])
+		mf := a.mutatedFields(T)
+		var fs []string
+		for f := range mf {
+			fs = append(fs, f)
+		}
+		sort.Strings(fs)
+		for _, f := range fs {
+			if why, ok := tables[n][f]; ok {
+				a.Ok("singleton:"+n+"."+f, token.NoPos, "%s; mutated by %v", why, mf[f])
+			} else {
+				a.Bad("singleton:"+n+"."+f, token.NoPos, "%s.%s is process-wide state mutated by %v and is not in the reviewed table: results of one evaluation can now depend on earlier rows or on another instance (history dependence)", n, f, mf[f])
+			}
+		}
+	}
+}
